@@ -5,6 +5,7 @@ import (
 	"encoding/hex"
 	"fmt"
 	"io"
+	"strings"
 
 	"github.com/database64128/shadowsocks-go/conn"
 	"github.com/database64128/shadowsocks-go/netio"
@@ -40,28 +41,39 @@ func (g *group) inputAt(seq uint64) []byte {
 }
 
 func addSamples(c *harness.Check, groups []*group) {
-	n := 0
-	for _, g := range groups {
-		if n >= 12 {
-			break
-		}
-		// one seed and one mutation per entry family
+	// one well-formed seed and one enumerated / mutated input per sampled entry, spread over all families
+	stride := max(1, len(groups)/6)
+	for gi := 0; gi < len(groups); gi += stride {
+		g := groups[gi]
+		var seedPart, otherPart part
 		for _, p := range g.parts {
 			if p.count() == 0 {
 				continue
 			}
-			idx := p.count() / 2
-			in := p.at(idx, nil)
-			if in == nil {
+			if strings.HasSuffix(p.label(), "/seeds") && seedPart == nil {
+				seedPart = p
+			} else if otherPart == nil || strings.HasSuffix(p.label(), "/mut1") {
+				otherPart = p
+			}
+		}
+		for _, p := range []part{seedPart, otherPart} {
+			if p == nil {
 				continue
+			}
+			idx := uint64(0)
+			if p != seedPart {
+				idx = p.count() / 2
+			}
+			in := p.at(idx, nil)
+			for in == nil && idx+1 < p.count() {
+				idx++
+				in = p.at(idx, nil)
 			}
 			s := hex.EncodeToString(in)
 			if len(s) > 160 {
 				s = s[:160] + "..."
 			}
-			c.Sample(map[string]any{"entry": g.name, "generator": p.label(), "index": idx, "input_hex": s})
-			n++
-			break
+			c.Sample(map[string]any{"entry": g.name, "what": g.desc, "generator": p.label(), "index": idx, "input_hex": s})
 		}
 	}
 }
